@@ -336,3 +336,25 @@ for _k, _v in MORE8.items():
     MORE[_k] = (MORE[_k] + ' ' if _k in MORE else '') + _v
 NOTES += (' known_findings.json also lists, under "documented", genuine defects found by experiment that no static rule decides (C04 x4, C06 x2, C08, C10): the checks '
           'print them as KNOWN-FINDING lines and match nothing against them.')
+
+
+MORE9 = {
+    'C01': 'R01.22 nbpatch opens its output only when the content exists; R01.23 context managers restore in finally (C12 R12.17).',
+    'C02': 'R02.23 signed zeros and deep comparison of un-recursed values; R02.24 truth table of the scalar equality over 144 pairs of JSON scalars; R02.25 the deep equality recurses with itself.',
+    'C03': 'R03.30 chunk-level diffs are registered on the path of the list.',
+    'C04': 'R04.13 no schema-required field is removed from an object that goes into the merged notebook.',
+    'C05': 'R05.15 as R02.24.',
+    'C07': 'R07.17 the merge tool\'s output is read as bytes.',
+    'C08': 'R08.7 also rejects an emptiness test by file size.',
+    'C09': 'R09.18 the inputs of decide_notebook_merge are diffed as given.',
+    'C10': 'R10.11 an unresolved conflict carries no strategy tag.',
+    'C12': 'R12.14 key filters do not nest; R12.15 two rule-backed known findings (flags / configured Ignore persist across entry-point runs in one process); R12.16 the reset restores every table the configuration writes; R12.17 context managers restore in finally.',
+    'C14': 'R14.7 asks the ignore also for values of different types; R14.19 differ and printer agree on categories; R14.20/R14.21 the output renderer gates and excludes the fields of ignored categories.',
+    'C16': 'R16.22 no assertion on tool output; R16.23 no wait() on a piped tool.',
+    'C17': 'R17.18 the clean filter is looked up with --get; R17.2 the missing-blob arm has no other disjunct.',
+    'C18': 'R18.2 rejects --unset-all on shared keys; R18.14 the global attributes lookup names its scope.',
+    'C19': 'R19.3 requires the search path to be a list.',
+    'C20': 'R20.17 the store truncates its output.',
+}
+for _k, _v in MORE9.items():
+    MORE[_k] = (MORE[_k] + ' ' if _k in MORE else '') + _v
